@@ -13,6 +13,7 @@
 From Coq Require Import QArith List Bool Arith Lia.
 From VZ Require Import Model.K5_Vocab Model.K6_Reindex Model.C14_MaskKernel.
 From VZ Require Import Proofs.K5_Vocab_proofs Proofs.K6_Reindex_proofs Proofs.C14_MaskKernel_proofs.
+From VZ Require Model.K02_Windows Model.K03_Exec Proofs.C14_MultiMask_proofs.
 Import ListNotations.
 Close Scope Z_scope.
 Open Scope nat_scope.
@@ -142,6 +143,23 @@ Theorem C14_tree_projector : forall (R : Type) (rzero rone : R) (radd rmul : R -
 Proof. exact project_entries. Qed.
 Print Assumptions C14_tree_projector.
 
+(* (11) multiset vectorizer (Model/K02_Windows.v multi_kernel, after the D31 repair): the window of a target always
+   starts with its own multiset (distance 0), so radius 0 does not empty it; a target that is the nullified mask gets
+   an all-zero kernel whatever the window, offset and normalisation -- no triple is produced for the mask's row;
+   any other target keeps the plain kernel (own slot and masked contexts zeroed) *)
+Theorem C14_multiset_masked_target : forall (kf : nat -> K02_Windows.T K03_Exec.QcK) m norm off (window : list (list nat)) s,
+  nth s (hd [] window) 0 = m ->
+  Forall (fun x : Qcanon.Qc => x = Qcanon.Q2Qc 0) (@K02_Windows.multi_kernel K03_Exec.QcK kf (Some m) norm off window s).
+Proof. exact C14_MultiMask_proofs.multi_kernel_masked_target. Qed.
+Print Assumptions C14_multiset_masked_target.
+
+Theorem C14_multiset_other_target : forall (K : K02_Windows.carrier) (kf : nat -> K02_Windows.T K) m off (window : list (list nat)) s,
+  nth s (hd [] window) 0 <> m ->
+  K02_Windows.multi_raw kf (Some m) off window s
+  = K02_Windows.upd (K02_Windows.multi_fill kf (Some m) off 0 window) s (@K02_Windows.zero K).
+Proof. exact C14_MultiMask_proofs.multi_raw_other_target. Qed.
+Print Assumptions C14_multiset_other_target.
+
 (* ---- non-vacuity ---- *)
 Example C14_ex_reindex :
   reindex nat Nat.eqb (Some 9) [(1, 0); (2, 1)] [[1; 5; 2; 5; 5]; []; [7]]
@@ -166,3 +184,10 @@ Proof. split; vm_compute; reflexivity. Qed.
 Example C14_ex_projector :
   project Z 0%Z 1%Z Z.add Z.mul 3 1 [[1; 2; 3]; [4; 5; 6]; [7; 8; 9]]%Z = [[1; 0; 3]; [0; 0; 0]; [7; 0; 9]]%Z.
 Proof. vm_compute. reflexivity. Qed.
+Example C14_ex_multiset :
+  (* window = own multiset [0; 2] then [1]; mask = 2: the mask (slot 1) sees nothing, token 0 (slot 0) sees [1] only *)
+  map K03_Exec.show (@K02_Windows.multi_kernel K03_Exec.QcK K03_Exec.kf_flat (Some 2) false 0 [[0; 2]; [1]] 1)
+  = [(0, 1); (0, 1); (0, 1)]%Z
+  /\ map K03_Exec.show (@K02_Windows.multi_kernel K03_Exec.QcK K03_Exec.kf_flat (Some 2) false 0 [[0; 2]; [1]] 0)
+  = [(0, 1); (0, 1); (1, 1)]%Z.
+Proof. split; vm_compute; reflexivity. Qed.
